@@ -489,4 +489,9 @@ def check(pid, tier, extra=None):
         import backend
         cov, st_, n_ = backend.phase(rep, pid, tier)
         coverage.update(cov); coverage["states"] += st_; coverage["traces_validated_against_impl"] += n_
+    if pid == "C09":
+        # L2: the naming machine (spec/Names.tla) - design level, trace validation of the names the back end gave
+        import backend
+        cov, st_, n_ = backend.names_phase(rep, tier)
+        coverage.update(cov); coverage["states"] += st_; coverage["traces_validated_against_impl"] += n_
     return rep.finish("model_checking", coverage, ASSUME)
